@@ -77,6 +77,11 @@ def register(R):
                               note='each merge-control tag constructor is exactly `_make_node(loader, node, kwargs={<its flag>})`: default node type (type deduction from the content), no data transformation'))
 
 
+def _with(c, name, fn):
+    c.x[name] = fn
+    return c
+
+
 def register_dump(R):
     """C18: the data path of a dump that is within reach: which flags are saved, how metadata is decoded back into
     constructor keywords.  (The elision logic of _node_representer filters a mapping of symbolic shape and drives the PyYAML
@@ -99,13 +104,55 @@ def register_dump(R):
         out = [(f'C18.saved-{nm}-is-the-explicit-flag', z3.And(m.has(sym.mk_str(nm)), m.get(sym.mk_str(nm)) == c.pre.get(f, s))) for nm, f in flags.items()]
         out.append(('C18.user-metadata-is-saved-unchanged', S.FA([k], z3.Implies(z3.And(md.has(k), z3.And([k != sym.mk_str(nm) for nm in flags])), z3.And(m.has(k), m.get(k) == md.get(k))))))
         out.append(('C18.node-keeps-its-own-metadata-object', z3.And(r_of(c.rt) != r_of(c.pre.get('_metadata', s)), S.md(c.post, s).eq(md))))
+        out.append(('C18.saved-info-is-a-new-object', z3.Not(c.alive(r_of(c.rt)))))
         return out
 
     R.add(Contract(N + 'ConfigNode.ayns.get_node_info_to_save', [P.node('self', 'ConfigNode')],
                    requires=lambda c: [('metadata-is-a-dict', z3.And(is_ref(c.pre.get('_metadata', c.ref('self'))), r_of(c.pre.get('_metadata', c.ref('self'))) > 0,
                                                                     S.md(c.pre, c.ref('self')).len >= 0))],
-                   pure=True, ensures=[('info', info_ens)], result=P.map('result', ), props=('C18',), opts={'no_search': True},
+                   pure=True, ensures=[('info', info_ens)], result=P.map('result', fresh=True), props=('C18',), opts={'no_search': True},
                    note='what a dump starts from: the user metadata plus the four EXPLICIT flags of the node'))
+
+    # FunctionNode.ayns.represent: what a dump writes for a !call / !bind node.  The constructor of function nodes sets
+    # delete=True when no flag is given, so exactly that value may be left out; any other explicit flag has to be written.
+    F = 'awesomeyaml/nodes/function.py::'
+    D_ = 'awesomeyaml/nodes/dict.py::'
+    for key in (F + 'FunctionNode.ayns.tag', 'awesomeyaml/nodes/call.py::CallNode.ayns.tag', 'awesomeyaml/nodes/bind.py::BindNode.ayns.tag'):
+        R.add(Contract(key, [P.node('self', 'FunctionNode')], name='abstract', assume_only=True, pure=True, result=P.val('result', 'str'), props=('C18',),
+                       opts={'callee': False}, note='tag text of a function node (string formatting of the target name): not interpreted'))
+    for key in (D_ + 'ConfigDict._get_value', 'awesomeyaml/nodes/composed.py::ComposedNode._get_value'):
+        R.add(Contract(key, [P.node('self', 'ComposedNode')], name='abstract', assume_only=True, pure=True, result=P.val('result', 'any'), props=('C18',),
+                       opts={'callee': False}, note='the arguments as a container value: not interpreted here'))
+
+    def rep_ens(c):
+        s = c.ref('self')
+        md = S.md(c.pre, s)
+        k = z3.Const('!rk', Val)
+        meta = c.x['represent_meta'](c)
+        d0 = c.pre.get('_delete', s)
+        flags = {'priority': '_priority', 'allow_new': '_allow_new', 'safe': '_safe'}
+        out = [('C18.function-node-omits-only-the-constructor-default-delete-flag',
+                z3.And(meta.has(sym.mk_str('delete')), meta.get(sym.mk_str('delete')) == z3.If(d0 == sym.TRUE, sym.NONE, d0)))]
+        out += [(f'C18.function-node-saves-explicit-{nm}', z3.And(meta.has(sym.mk_str(nm)), meta.get(sym.mk_str(nm)) == c.pre.get(f, s))) for nm, f in flags.items()]
+        out.append(('C18.function-node-saves-user-metadata-unchanged',
+                    S.FA([k], z3.Implies(z3.And(md.has(k), z3.And([k != sym.mk_str(nm) for nm in ('priority', 'delete', 'allow_new', 'safe')])), z3.And(meta.has(k), meta.get(k) == md.get(k))))))
+        return out
+
+    def rep_result(c):
+        # second component of the returned triple
+        from pyvc.values import TupleV
+        res = c.res
+        assert isinstance(res, TupleV) and len(res.items) == 3, res
+        return c.post.m(r_of(res.items[1].t))
+
+    R.add(Contract(F + 'FunctionNode.ayns.represent', [P.node('self', ['CallNode', 'BindNode'])],
+                   requires=lambda c: [('metadata-is-a-dict', z3.And(is_ref(c.pre.get('_metadata', c.ref('self'))), r_of(c.pre.get('_metadata', c.ref('self'))) > 0,
+                                                                    S.md(c.pre, c.ref('self')).len >= 0))],
+                   pure=True, ensures=[('represent', lambda c: rep_ens(_with(c, 'represent_meta', rep_result)))], props=('C18',),
+                   opts={'no_search': True, 'verify_only': True, 'use': {k_: 'abstract' for k_ in (F + 'FunctionNode.ayns.tag', 'awesomeyaml/nodes/call.py::CallNode.ayns.tag',
+                                                                                                    'awesomeyaml/nodes/bind.py::BindNode.ayns.tag', D_ + 'ConfigDict._get_value',
+                                                                                                    'awesomeyaml/nodes/composed.py::ComposedNode._get_value')}},
+                   note='flags written for a function node'))
 
     # _decode_metadata: special names become constructor keywords, the rest stays user metadata
     SPECIAL = ['idx', 'priority', 'delete', 'allow_new', 'source_file', 'safe']
